@@ -113,4 +113,23 @@ def Race (ts : Threads) : Prop :=
 /-- the lock discipline of a table: every access holds the lock, writes hold it exclusively -/
 def disciplined (a : Access) : Bool := (lockMode a == 1 || lockMode a == 2) && (!isWrite a || lockMode a == 2)
 
+/-! ## (C) a mutex across complete calls: does every way out of a function give the lock back?
+
+  `BalTable.lock` (and the other mutexes of the reload code) are locked and unlocked MANUALLY; a `return` between
+  `Lock()` and `Unlock()` leaves the mutex held for ever and every later `Lookup` (request path) or reload blocks.
+  One step = one complete call that leaves through exit `e` of the extracted table. -/
+
+/-- (file:function, line of the exit, the lock is released there) -/
+abbrev LockExit := String × Nat × Bool
+
+structure MuState where
+  held : Bool := false       -- the mutex is still held by a call that has already returned
+  blocked : Nat := 0         -- calls that could never enter
+
+/-- a complete call that takes the mutex and leaves through exit `e` -/
+def callStep (s : MuState) (e : LockExit) : MuState :=
+  if s.held then { s with blocked := s.blocked + 1 } else { s with held := !e.2.2 }
+
+def runCalls (calls : List LockExit) : MuState := calls.foldl callStep {}
+
 end BfeVerif.C15
